@@ -24,6 +24,68 @@ def all_spans(sx, out, refs=None):
     return out
 
 
+def comment_defects(ck):
+    """C16's comment defects: tags that do not fit their element and links that lead nowhere, in comments of several lines; where do the reports point"""
+    rng = ck.rng
+    n = 400 if ck.tier == "quick" else 4000
+    lines_, metas = [], []
+    words = ["text", "more words here", "é", "ünï cödé", "a", "日本語 and ascii", "x y z", "long enough to pass every other line of this comment"]
+    for _ in range(n):
+        ind = rng.choice(["", "    ", "\t", "  "])
+        eol = rng.choice(["\n", "\n", "\r\n"])
+        host = rng.choice(["void-op", "struct", "struct", "enumerator", "field", "custom"])
+        # (@param on an enumerator documents a field of it: not a misfit)
+        tag = "@returns" if host == "void-op" else rng.choice(["@returns", "@returns r"] if host == "enumerator" else ["@param p", "@returns", "@returns r"])
+        out, want = [], []      # want: (code, (r1, c1, r2, c2))
+        pre = {"void-op": ["module M", "interface I {"], "struct": ["module M"], "enumerator": ["module M", "enum E {"], "field": ["module M", "struct S {"], "custom": ["module M"]}[host]
+        post = {"void-op": [ind + "op()", "}"], "struct": [ind + "struct S {}"], "enumerator": [ind + "A", "}"], "field": [ind + "a: int32", "}"], "custom": [ind + "custom C"]}[host]
+        out += pre
+        if rng.random() < 0.5:
+            out.append(ind + "/// An overview " + rng.choice(words))
+        first = ind + "/// " + rng.choice(["", " ", "  "]) + tag + ": " + rng.choice(words)
+        msg_lines = [first] + [ind + "///" + rng.choice([" ", "   ", "\t", "     "]) + rng.choice(words) for _ in range(rng.choice([0, 1, 1, 2, 3]))]
+        links = []
+        if rng.random() < 0.6:
+            k = rng.randrange(len(msg_lines))
+            target = rng.choice(["::A::B", "Missing", "::Nope", "A::B::C", "::M::Zed"])
+            msg_lines[k] += " {@link %s}" % target + rng.choice(["", " end", " é"])
+            links.append((k, target))
+        r0 = len(out) + 1
+        out += msg_lines
+        c0 = first.index("@") + 1
+        want.append(("IncorrectDocComment", (r0, c0, r0 + len(msg_lines) - 1, len(msg_lines[-1]) + 1)))
+        for k, target in links:
+            col = msg_lines[k].index("{@link ") + len("{@link ") + 1
+            want.append(("BrokenDocLink", (r0 + k, col, r0 + k, col + len(target))))
+        if rng.random() < 0.4:
+            out.append(ind + "/// @see " + rng.choice(["::Nowhere::X", "Gone"]))
+            tgt = out[-1].split("@see ")[1]
+            want.append(("BrokenDocLink", (len(out), out[-1].index("@see ") + 6, len(out), out[-1].index("@see ") + 6 + len(tgt))))
+        out += post
+        text = eol.join(out) + eol
+        lines_.append("diags - " + hx(text))
+        metas.append((text, sorted(want)))
+    o = core.run_impl("diags", lines_, chunk=200, timeout=120)
+    ck.stream("comment-defects", description="doc comments with a tag that does not fit its element (@returns on an operation that returns nothing; @param/@returns on a struct, field, enumerator, custom type) whose message runs over 1-4 lines "
+              "of differing lengths with non-ASCII text and tabs, links that lead nowhere (relative, scoped, global) in the message and in @see tags, LF and CRLF: the report about the tag runs from its '@' to the end of its message, "
+              "the report about a link covers exactly the identifier as written")
+    for (text, want), oo, line in zip(metas, o, lines_):
+        ck.count("comment-defects", line, kind="crlf" if "\r" in text else "lf")
+        dl = parse_diags(oo)
+        if dl is None:
+            ck.violation("comment-defects", "crash", text, "diagnostics", oo[:200])
+            continue
+        got = []
+        for d in dl:
+            if d["span"] != "-":
+                a, b = d["span"].rsplit("-", 1)
+                got.append((d["code"], tuple(int(x) for x in a.split(":")[-2:] + b.split(":"))))
+        if sorted(got) != want:
+            miss = [w for w in want if w not in got]
+            extra = [g for g in got if g not in want]
+            ck.violation("comment-defects", "comment-defect-location", text, repr(miss), repr(extra), signature={"code": (miss or extra or [("?",)])[0][0]})
+
+
 def run(ck):
     n = 400 if ck.tier == "quick" else 4000
     styles = ["plain", "mixed", "mixed", "mixed"]
@@ -89,6 +151,7 @@ def collect(sx, out):
 
 def diagnostics_stream(ck):
     """programs with one injected rule violation (C04's catalogue) in mixed layouts: where do the diagnostics point, and what does the snippet show"""
+    comment_defects(ck)
     from . import c04, c14
     n = 300 if ck.tier == "quick" else 3000
     cases = sc.make_cases(ck, n, ["mixed", "tabs", "tabs"], ck.rng, mutate=c04.inject)
